@@ -511,4 +511,55 @@ def run(facts, tier, ctx):
                      finding_prefix="ERRDISC/par", exempt_infallible_callee=True, exempt=identity_guard_exemption)
     ed.require_floor(6, "SourceError/EncodeError producing call sites in the par module")
     out.append(ed)
+    # ------------------------------------------------------------ WORKERS/non-zero
+    # zero workers means zero frame buffers and a feeder that waits for one forever: every source of the worker count is
+    # non-zero by type (NonZeroUsize::get) or filtered to be > 0.
+    wz = RuleResult("WORKERS/non-zero", "the worker count cannot be zero: every integer source is NonZero-typed or filtered > 0")
+    dw = None
+    for b in facts.body_list:
+        if b.module == "par" and b.kind == "Fn" and any(
+                (tt.get("fn") or {}).get("def", "").endswith("available_parallelism") for _bi, tt in b.calls()):
+            dw = b
+    if dw is None:
+        raise FactError("worker-count function (caller of available_parallelism) not found")
+    bodies = [dw] + facts.closures_of(dw, recursive=True)
+    parses = []
+    filters = []
+    for b in bodies:
+        for bi, tt in b.calls():
+            fn = tt.get("fn") or {}
+            if fn.get("name") == "parse" and "str" in (fn.get("full") or ""):
+                g = fn.get("gargs") or []
+                parses.append((b, bi, g[0] if g else "?"))
+            if fn.get("name") == "filter" and "Option" in (fn.get("full") or ""):
+                cb = closure_arg_body(facts, b, tt["args"][1]) if len(tt["args"]) > 1 else None
+                okf = False
+                if cb is not None:
+                    for _b2, _s2, st in cb.iter_stmts():
+                        if st["k"] == "assign" and st["rv"]["k"] == "bin" and st["rv"]["op"] in ("Gt", "Ne", "Ge"):
+                            c = st["rv"]["b"]
+                            if c.get("k") == "const" and ((st["rv"]["op"] in ("Gt", "Ne") and c.get("v") == 0)
+                                                          or (st["rv"]["op"] == "Ge" and c.get("v") == 1)):
+                                okf = True
+                filters.append(okf)
+    for (b, bi, ty) in parses:
+        where = b.loc(bi, "term")
+        if "NonZero" in ty:
+            wz.ok({"source": "parse::<%s>" % ty, "site": where, "verdict": "non-zero by type"})
+        elif any(filters):
+            wz.ok({"source": "parse::<%s>" % ty, "site": where, "verdict": "filtered > 0"})
+        else:
+            wz.fail(Finding("WORKERS/non-zero", dw.id, "zero-worker-override", 0, where,
+                            "the worker count parsed from the environment as %s (%s) reaches the result without a `> 0` filter: "
+                            "an override of 0 creates no workers and no frame buffers, and the feeder waits for a buffer "
+                            "forever" % (ty, where)))
+    gets = sum(1 for b in bodies for _bi, tt in b.calls() if (tt.get("fn") or {}).get("name") == "get"
+               and "NonZero" in ((tt.get("fn") or {}).get("full") or ""))
+    consts = [b for b in bodies for _bi, tt in b.calls() if (tt.get("fn") or {}).get("name") == "get"]
+    if gets >= 1 or any("NonZero" in str(a) for b in bodies for _bi, tt in b.calls() for a in tt["args"]):
+        wz.ok({"source": "available_parallelism / config.workers", "verdict": "NonZeroUsize::get"})
+    else:
+        wz.fail(Finding("WORKERS/non-zero", dw.id, "no-nonzero-source", 0, dw.loc(), "no NonZeroUsize::get source found"))
+    wz.require_floor(2, "worker-count sources")
+    out.append(wz)
     return out
